@@ -239,7 +239,9 @@ def drive(recipe):
     # afterwards must not see those edits: its matrices (read directly, not through memoised codes) are the setting's
     import numpy as np
     t["fresh"] = {"exc": "", "off": False, "mats": []}
+    saved = []
     try:
+        saved = [(s, np.array(s.translation, copy=True), np.array(s.rotation, copy=True)) for s in sg.symmetry_operations]
         for s in sg.symmetry_operations:
             try:
                 s.translation[:] = (np.asarray(s.translation) + 0.25) % 1
@@ -256,6 +258,14 @@ def drive(recipe):
         t["fresh"]["off"] = off
     except Exception as e:
         t["fresh"]["exc"] = type(e).__name__
+    finally:
+        # the edits are undone: where operation objects are shared between groups they must not reach the next trace
+        try:
+            for s_, tr_, rot_ in saved:
+                s_.translation[:] = tr_
+                s_.rotation[:] = rot_
+        except Exception:
+            pass
     t["meta"]["nontrivial"] = len(t["ops"]) > 1
     return t
 
